@@ -27,6 +27,10 @@ def gen_auth_sel(rng):
             "uv": rng.choice(UV + [None] if rng.random() < 0.2 else UV)}
 
 
+EDGE_TRAILERS = ["\U000e0001\U000e0065\U000e006e", "\U000e0001\U000e0066\U000e0072\U000e002d\U000e0043\U000e0041", "\U000e0001\U000e0061\U000e0072\u200f", "\U000e0001", "\U000e007f", "\u200e", "\u200f", "\u202c", "\ufe0f", "\ufe0e",
+                 "\u200d", "\u200c", "\ufeff", "\u0301", "\u00a0", "\u3000", " ", "\t", "\n", "\u2028", "\U0001f3f4\U000e0067\U000e0062\U000e0065\U000e006e\U000e0067\U000e007f", "\u061c", "\u2066x\u2069", "\x00", "\x7f"]
+
+
 def gen_reg_args(rng):
     nonascii = rng.random() < 0.2
     a = {
@@ -44,6 +48,13 @@ def gen_reg_args(rng):
         "algs": rng.choice([None, []]) if rng.random() < 0.4 else (rng.sample(ALGS, rng.randrange(1, 6)) if rng.random() < 0.8 else [rng.choice(ALGS) for _ in range(rng.randrange(2, 6))] + [-7, -7]),
         "hints": rng.choice([None, None, [], [rng.choice(HINTS)], rng.sample(HINTS, 2)]),
     }
+    # names are opaque texts: invisible / format characters at their ends (language and direction trailers of WebAuthn L2 6.4.2 made of TAG characters, direction marks, variation
+    # selectors, joiners, byte order marks, white space) are part of them
+    if rng.random() < 0.3:
+        k = rng.choice(["rp_name", "user_name", "display_name"])
+        base = a[k] if isinstance(a[k], str) else "Lee"
+        t = rng.choice(EDGE_TRAILERS)
+        a[k] = rng.choice([base + t, base + t, t + base, base + t + rng.choice(["\u200e", "\u200f", ""])])
     # arguments that happen to coincide with one another are still independent values
     r = rng.random()
     if r < 0.06:
@@ -119,10 +130,37 @@ def shaped(kw, shape):
         for k in ("exclude_credentials", "allow_credentials"):
             if kw.get(k):
                 kw[k] = [st.PublicKeyCredentialDescriptor(id=d.id, transports=conv(d.transports)) if d.transports is not None else d for d in kw[k]]
+    if shape == "app-subclasses":
+        # the RP's own record types: dataclass SUBCLASSES of the library's records with further fields (a stored credential with its counter, nickname and key) - for the
+        # library they are the records they extend, and nothing of the extra fields belongs on the wire
+        st = S()
+        import dataclasses as _dc
+        global _APP_TYPES
+        if "_APP_TYPES" not in globals() or _APP_TYPES is None:
+            @_dc.dataclass
+            class StoredCredential(st.PublicKeyCredentialDescriptor):
+                sign_count: int = 7
+                nickname: str = "my key"
+                public_key: bytes = b"\xa5\x01\x02"
+                last_used: object = None
+
+            @_dc.dataclass
+            class TenantSelection(st.AuthenticatorSelectionCriteria):
+                tenant: str = "t-1"
+                secret: bytes = b"s"
+            _APP_TYPES = (StoredCredential, TenantSelection)
+        SC, TS = _APP_TYPES
+        for k in ("exclude_credentials", "allow_credentials"):
+            if kw.get(k):
+                kw[k] = [SC(id=d.id, type=d.type, transports=d.transports) for d in kw[k]]
+        sel = kw.get("authenticator_selection")
+        if sel is not None:
+            kw["authenticator_selection"] = TS(authenticator_attachment=sel.authenticator_attachment, resident_key=sel.resident_key, require_resident_key=sel.require_resident_key, user_verification=sel.user_verification)
     return kw
 
 
-SHAPES = [None, "plain-ints", "odd-strs", "enum-named-strs", "foreign-enums"]
+_APP_TYPES = None
+SHAPES = [None, "plain-ints", "odd-strs", "enum-named-strs", "foreign-enums", "app-subclasses"]
 
 
 def py_auth_sel(s):
